@@ -137,7 +137,7 @@ theorem lookup_perm {α β} [BEq α] [LawfulBEq α] {l₁ l₂ : List (α × β)
   rw [lookup_eq_some_iff_mem nd, lookup_eq_some_iff_mem nd₂]
   exact p.mem_iff
 
-/-! ### lexicographic products of total orders (for the repaired option-key order) -/
+/-! ### lexicographic products of total orders (for the option-key order) -/
 
 def lexLe {α β} [DecidableEq α] (le₁ : α → α → Bool) (le₂ : β → β → Bool) (x y : α × β) : Bool :=
   if x.1 = y.1 then le₂ x.2 y.2 else le₁ x.1 y.1
@@ -214,12 +214,12 @@ theorem decide_lt_eq_not_le (a b : Nat) : decide (b < a) = !decide (a ≤ b) := 
   · have : b < a := by omega
     simp [h, this]
 
-/-- the repaired `<` is exactly the strict part of the total order `keyLe` -/
-theorem optKeyLtFixed_eq (a b : OptKey) : (!optKeyLtFixed b a) = keyLe a b := by
+/-- `OptionKey.__lt__` is exactly the strict part of the total order `keyLe` -/
+theorem optKeyLt_eq (a b : OptKey) : (!optKeyLt b a) = keyLe a b := by
   obtain ⟨sa, ma, na⟩ := a
   obtain ⟨sb, mb, nb⟩ := b
   cases sa <;> cases sb <;>
-    simp only [optKeyLtFixed, keyLe, lexLe, OptKey.tuple, optStrLe, tupleLt]
+    simp only [optKeyLt, keyLe, lexLe, OptKey.tuple, optStrLe, tupleLt]
   · by_cases hm : ma = mb
     · subst hm; simp
     · have : ¬ mb = ma := fun e => hm e.symm
@@ -238,15 +238,15 @@ theorem optKeyLtFixed_eq (a b : OptKey) : (!optKeyLtFixed b a) = keyLe a b := by
     · have h' : ¬ y = x := fun e => hs e.symm
       simp [hs, h']
 
-theorem pySortedBy_fixed_eq (l : List OptKey) : pySortedBy optKeyLtFixed l = l.mergeSort keyLe := by
+theorem pySortedBy_optKeyLt_eq (l : List OptKey) : pySortedBy optKeyLt l = l.mergeSort keyLe := by
   unfold pySortedBy
   congr 1
   funext a b
-  exact optKeyLtFixed_eq a b
+  exact optKeyLt_eq a b
 
-theorem pySortedBy_fixed_perm {l₁ l₂ : List OptKey} (p : l₁ ~ l₂) :
-    pySortedBy optKeyLtFixed l₁ = pySortedBy optKeyLtFixed l₂ := by
-  rw [pySortedBy_fixed_eq, pySortedBy_fixed_eq]
+theorem pySortedBy_optKeyLt_perm {l₁ l₂ : List OptKey} (p : l₁ ~ l₂) :
+    pySortedBy optKeyLt l₁ = pySortedBy optKeyLt l₂ := by
+  rw [pySortedBy_optKeyLt_eq, pySortedBy_optKeyLt_eq]
   exact mergeSort_eq_of_perm keyLe_totalLe p
 
 /-! ### adding the base options to the store commutes with permutations -/
